@@ -1,7 +1,7 @@
 (* C03 — mask: exact residual signature after n positionals and named arguments. *)
 From Sigtools.Model Require Import Base Bind Roles Algebra.
 From Sigtools.Model Require Import Universe.
-From Sigtools.Proofs Require Import SmallModel Basics Deciders SweepDefs SweepDefs2 Bounded2.
+From Sigtools.Proofs Require Import SmallModel Basics Deciders SweepDefs SweepDefs2 Bounded2 MaskLaws MaskExact.
 
 Theorem C03_wf s n names0 h r : mask s n names0 h = Ok r -> validate (params r) = true.
 Proof. exact (mask_wf s n names0 h r). Qed.
@@ -46,3 +46,30 @@ Theorem C03_mask_exact_U2 s n names0 :
   end.
 Proof. exact (mask_exact_U2 s n names0). Qed.
 Print Assumptions C03_mask_exact_U2.
+
+(* ---- for ALL signatures and ALL calls (no bound) ---- *)
+
+(* mask(sig, 0) is sig: parameters, return annotation and provenance *)
+Theorem C03_mask_zero s :
+  valid_sig (params s) = true -> mask s 0 [] nohide0 = Ok s.
+Proof. exact (mask_zero_identity s). Qed.
+Print Assumptions C03_mask_zero.
+
+(* mask(sig, n), n > 0 leading positionals: accepts a non-colliding call exactly
+   when sig accepts it with n extra leading positional arguments; raises
+   ValueError exactly when sig cannot be passed n positional arguments at all.
+   (This is also the signature of a bound method, mask(sig, 1).) *)
+Theorem C03_positional_exact s n :
+  valid_sig (params s) = true -> n <> 0%nat ->
+  match mask s n [] nohide0 with
+  | Ok r => forall c, noncolliding c (params r) [params s] = true ->
+                      accepts (params r) c = accepts (params s) (shift_call n [] c)
+  | Err e => e = ValueErr /\ forall c, accepts (params s) (shift_call n [] c) = false
+  end.
+Proof. exact (mask_positional_exact s n). Qed.
+Print Assumptions C03_positional_exact.
+
+Example C03_positional_exact_nonvacuous :
+  valid_sig [mkParam 1 PO None None UEmpty; mkParam 2 PK (Some 1) None UEmpty; mkParam 9 VP None None UEmpty] = true.
+Proof. reflexivity. Qed.
+Print Assumptions C03_positional_exact_nonvacuous.
